@@ -99,11 +99,11 @@ def appended (s : Settings) (written : List Str) : List Str :=
   s.filterMap (fun kv => if kv.1 ∈ written then none else some (newLine kv.1 kv.2))
 
 /-- the pieces written to the output file, in order -/
-def modifyLines (s : Settings) (lines : List Str) : List Str :=
+def modifyLinesAsIs (s : Settings) (lines : List Str) : List Str :=
   lines.map (editOut s) ++ appended s (writtenKeys lines)
 
 /-- `_modify_input(source, output, settings, delim="=")` as a function on file contents -/
-def modifyInput (s : Settings) (text : Str) : Str := (modifyLines s (linesKeep text)).flatten
+def modifyInputAsIs (s : Settings) (text : Str) : Str := (modifyLinesAsIs s (linesKeep text)).flatten
 
 /-! ### `_read_input_settings` -/
 
@@ -150,13 +150,13 @@ def replaceAll (old new s : Str) : Str :=
     `spl` are the tokens of the ORIGINAL line (computed once, before any replacement);
     `nf` is the `not_found` dict (its keys).  `not_found.pop(var)` raises KeyError when the
     variable was already popped while treating an earlier line. -/
-def wfrVars (spl : List Str) : Settings → Str → List Str → Except Err (Str × List Str)
+def wfrVarsAsIs (spl : List Str) : Settings → Str → List Str → Except Err (Str × List Str)
   | [], line, nf => .ok (line, nf)
   | (var, val) :: rest, line, nf =>
     if var ∈ spl then
-      if var ∈ nf then wfrVars spl rest (replaceAll var val line) (nf.erase var)
+      if var ∈ nf then wfrVarsAsIs spl rest (replaceAll var val line) (nf.erase var)
       else .error .key
-    else wfrVars spl rest line nf
+    else wfrVarsAsIs spl rest line nf
 
 /-- result of `write_for_run`: the pieces that reached the output file and how it ended.
     On KeyError the current line is not written; the ValueError is raised after the whole
@@ -166,14 +166,14 @@ structure WfrResult where
   err : Option Err
 deriving Repr, DecidableEq
 
-def wfrLines (s : Settings) : List Str → List Str → List Str → WfrResult
+def wfrLinesAsIs (s : Settings) : List Str → List Str → List Str → WfrResult
   | [], nf, acc => { written := acc.reverse, err := if nf.isEmpty then none else some .value }
   | line :: t, nf, acc =>
-    match wfrVars (splitWS line) s line nf with
+    match wfrVarsAsIs (splitWS line) s line nf with
     | .error e => { written := acc.reverse, err := some e }
-    | .ok (line', nf') => wfrLines s t nf' (line' :: acc)
+    | .ok (line', nf') => wfrLinesAsIs s t nf' (line' :: acc)
 
-def writeForRun (s : Settings) (text : Str) : WfrResult := wfrLines s (linesKeep text) (keys s) []
+def writeForRunAsIs (s : Settings) (text : Str) : WfrResult := wfrLinesAsIs s (linesKeep text) (keys s) []
 
 /-- what a line becomes when nothing raises: each variable that is a token of the original
     line is substring-replaced, in dict order -/
@@ -185,30 +185,47 @@ def substLine (spl : List Str) : Settings → Str → Str
 /-- number of lines on which `k` is a token -/
 def occ (k : Str) (lines : List Str) : Nat := (lines.filter (fun l => decide (k ∈ splitWS l))).length
 
-/-! ### `repaired` variants (NOT the code as it is)
+/-! ### the code as it is now (after the repairs f746fff and eaf64e1 in /repo)
 
-Both editors have a defect (see `Props/C19.lean`: `mdp_edit_idempotent_counterexample`,
-`lammps_edit_total_counterexample`).  So that the tie keeps accepting the code after the
-obvious repairs, the harness also asks for these variants and accepts a code that agrees with
-the as-is model everywhere or with the repaired one everywhere (DESIGN §7).
-  * mdp: a newline is written before the first appended setting when the last copied line
-    lacks one;
-  * LAMMPS: `not_found.pop(var, None)`. -/
+The definitions with suffix `AsIs` above mirror the code BEFORE the two repairs; they are kept
+as the record of the two findings (`…_asIs_…counterexample` in `Props/C19.lean`) and so that
+the tie can name a regression of either repair by its old signature.
+  * `_modify_input` (eaf64e1): `to_write` holds the last piece written; before an appended
+    setting a "\n" is written when that piece is non-empty and does not end with "\n"
+    (only the first appended setting can meet this: an appended line ends with "\n").
+  * `write_for_run` (f746fff): `not_found.pop(var, None)` — no KeyError any more. -/
 
-def modifyInputR (s : Settings) (text : Str) : Str :=
-  let ls := linesKeep text
-  let body := (ls.map (editOut s)).flatten
-  let app := appended s (writtenKeys ls)
-  if app.isEmpty || body.isEmpty || body.getLast? == some '\n' then body ++ app.flatten
-  else body ++ '\n' :: app.flatten
+/-- `to_write and not to_write.endswith("\n")` for the last piece written by the line loop
+    (`to_write = ""` when the template is empty) -/
+def needNL (out : List Str) : Bool :=
+  match out.getLast? with
+  | some p => !p.isEmpty && !(p.getLast? == some '\n')
+  | none => false
 
-def wfrLinesR (s : Settings) : List Str → List Str → List Str → WfrResult
+/-- the pieces written to the output file, in order -/
+def modifyLines (s : Settings) (lines : List Str) : List Str :=
+  let out := lines.map (editOut s)
+  match appended s (writtenKeys lines) with
+  | [] => out
+  | a :: r => if needNL out then out ++ ['\n'] :: a :: r else out ++ a :: r
+
+/-- `_modify_input(source, output, settings, delim="=")` as a function on file contents -/
+def modifyInput (s : Settings) (text : Str) : Str := (modifyLines s (linesKeep text)).flatten
+
+/-- the inner `for var in input_settings.keys()` loop on one line; `not_found.pop(var, None)` -/
+def wfrVars (spl : List Str) : Settings → Str → List Str → Str × List Str
+  | [], line, nf => (line, nf)
+  | (var, val) :: rest, line, nf =>
+    if var ∈ spl then wfrVars spl rest (replaceAll var val line) (nf.erase var)
+    else wfrVars spl rest line nf
+
+def wfrLines (s : Settings) : List Str → List Str → List Str → WfrResult
   | [], nf, acc => { written := acc.reverse, err := if nf.isEmpty then none else some .value }
   | line :: t, nf, acc =>
-    let spl := splitWS line
-    wfrLinesR s t (nf.filter (fun k => !(decide (k ∈ spl)))) (substLine spl s line :: acc)
+    let r := wfrVars (splitWS line) s line nf
+    wfrLines s t r.2 (r.1 :: acc)
 
-def writeForRunR (s : Settings) (text : Str) : WfrResult := wfrLinesR s (linesKeep text) (keys s) []
+def writeForRun (s : Settings) (text : Str) : WfrResult := wfrLines s (linesKeep text) (keys s) []
 
 /-! ### line-protocol handler (ops `mdp…`, `wfr…`) -/
 open Infretis.Proto
@@ -248,14 +265,14 @@ def handle (toks : List String) : Option String :=
     match parseStr? t, takeSettings rest with
     | some t, some (s, []) => some (hexStr (ofStr (modifyInput s t)))
     | _, _ => some "bad-op"
-  | "mdpmodifyR" :: t :: rest =>
+  | "mdpmodifyA" :: t :: rest =>
     match parseStr? t, takeSettings rest with
-    | some t, some (s, []) => some (hexStr (ofStr (modifyInputR s t)))
+    | some t, some (s, []) => some (hexStr (ofStr (modifyInputAsIs s t)))
     | _, _ => some "bad-op"
-  | "wfrR" :: t :: rest =>
+  | "wfrA" :: t :: rest =>
     match parseStr? t, takeSettings rest with
     | some t, some (s, []) =>
-      let r := writeForRunR s t
+      let r := writeForRunAsIs s t
       some (showErr r.err ++ " " ++ hexStr (ofStr r.written.flatten))
     | _, _ => some "bad-op"
   | ["mdpread", t] =>
